@@ -6,6 +6,7 @@ mod c10;
 mod cases;
 mod ep;
 mod gen;
+mod slow;
 mod tls;
 
 use dsverif::live::{self, Conn};
@@ -91,16 +92,34 @@ fn main() {
                         .map(|a| a.iter().any(|x| x.as_str() == Some("transport:tls")))
                         .unwrap_or(false)
                 };
+                let is_slow = |v: &serde_json::Value| {
+                    v.get("tags")
+                        .and_then(|t| t.as_array())
+                        .map(|a| a.iter().any(|x| x.as_str() == Some("transport:slow-client")))
+                        .unwrap_or(false)
+                };
+                let (slow_cases, cases): (Vec<_>, Vec<_>) = cases.into_iter().partition(|v| is_slow(v));
+                let slow_run = if slow_cases.is_empty() {
+                    None
+                } else {
+                    Some(slow::start_cases(slow_cases.iter().map(cases::Case::from_json).collect()))
+                };
                 let (tls_cases, plain): (Vec<_>, Vec<_>) = cases.into_iter().partition(|v| is_tls(v));
                 c09::replay(&server, &plain, out);
                 if !tls_cases.is_empty() {
                     let cs: Vec<cases::Case> = tls_cases.iter().map(cases::Case::from_json).collect();
                     tls::replay(&cs, out);
                 }
+                if let Some(r) = slow_run {
+                    slow::finish(r, out);
+                }
             }
             ("c09", None) => {
+                // the slow-client slice runs beside everything else: started first, joined last
+                let slow_run = slow::start(o.seed, o.thorough);
                 c09::gen_all(&server, o.seed, o.thorough, out);
                 tls::gen_all(o.seed, o.thorough, out);
+                slow::finish(slow_run, out);
             }
             ("c10", None) => c10::gen_all(&server, o.seed, o.thorough, out),
             (m, _) => panic!("unknown mode {:?}", m),
